@@ -37,6 +37,8 @@ fn main() -> ExitCode {
         "C08" => rosu_verif::c08::run(tier, seed, only),
         "C10" => rosu_verif::c10::run(tier, seed, only),
         "C11" => rosu_verif::c11::run(tier, seed, only),
+        "C12" => rosu_verif::c12::run(tier, seed, only),
+        "C13" => rosu_verif::c13::run(tier, seed, only),
         "C14" => rosu_verif::c14::run(tier, seed, only),
         "C15" => rosu_verif::c15::run(tier, seed, only),
         "C16" => rosu_verif::c16::run(tier, seed, only),
